@@ -232,17 +232,40 @@ def prog_line(spec):
 def reuse_case(case):
     """HISTORY: one Runner object runs several commands in a row (with / without a timeout, different exit codes,
     warn on/off); each run must be decided by its own status: return iff status 0 or warn, else UnexpectedExit -
-    and never a timed-out failure when no timeout is in effect or the timer did not fire."""
+    and never a timed-out failure when no timeout is in effect or the timer did not fire.
+
+    A run is [status, warn kwarg (True/False, or None = not given), timeout, config edit]; the optional config edit
+    [how, value] is made IN PLACE on the runner's context config before that run (how = "attr": `config.run.warn = v`,
+    "item": `config["run"]["warn"] = v`, "timeout": `config.timeouts.command = v`).  The warn in effect at a call is the
+    kwarg if given, else the value configured AT THE TIME OF THAT CALL, else the default (False)."""
     from invoke import Context, Config
     from invoke.exceptions import UnexpectedExit, CommandTimedOut
     from fakerunner import Scripted
-    r = Scripted(Context(Config()), finish_when="drained")
-    for i, (rc, warn, timeout) in enumerate(case["runs"]):
+    conf = Config()
+    r = Scripted(Context(conf), finish_when="drained")
+    cfg_warn, trail = False, []
+    for i, run in enumerate(case["runs"]):
+        rc, warn_kw, timeout = run[0], run[1], run[2]
+        edit = run[3] if len(run) > 3 else None
+        if edit:
+            how, val = edit
+            if how == "attr":
+                conf.run.warn = val
+                cfg_warn = bool(val)
+            elif how == "item":
+                conf["run"]["warn"] = val
+                cfg_warn = bool(val)
+            elif how == "timeout":
+                conf.timeouts.command = val
+            trail.append((i, how, val))
+        warn = cfg_warn if warn_kw is None else warn_kw
         r._out, r._err, r._exited = [b"o%d" % i], [], rc
         r._drained = {"out": False, "err": False}
         kw = {"timeout": timeout} if timeout is not None else {}
+        if warn_kw is not None:
+            kw["warn"] = warn_kw
         try:
-            res = r.run("cmd%d" % i, hide=True, in_stream=False, warn=warn, **kw)
+            res = r.run("cmd%d" % i, hide=True, in_stream=False, **kw)
             got = ("return", res.exited)
         except UnexpectedExit as e:
             got = ("UnexpectedExit", e.result.exited)
@@ -250,7 +273,9 @@ def reuse_case(case):
             got = ("CommandTimedOut", e.result.exited)
         want = ("return", rc) if (rc == 0 or warn) else ("UnexpectedExit", rc)
         if got != want:
-            return "run %d of one Runner object (status %d, warn=%s, timeout=%r): got %s, the property demands %s" % (i, rc, warn, timeout, got, want)
+            return ("run %d of one Runner object (status %d, warn kwarg %s, warn configured at this call %s [in-place config "
+                    "edits so far: %r], timeout=%r): got %s, the property demands %s" % (
+                        i, rc, "absent" if warn_kw is None else warn_kw, cfg_warn, trail, timeout, got, want))
     return None
 
 
@@ -560,6 +585,22 @@ def run(ctx):
         c = {"kind": "reuse", "runs": runs}
         out.case(c, True)
         out.hist["reuse"] += 1
+        ok, why = replay(c)
+        if not ok:
+            out.fail(c, why)
+    # (e') the same with the runner's config edited IN PLACE between the runs: return vs raise follows the warn in effect
+    # at that call (kwarg, else configured at the time of the call, else default)
+    for _ in range(ctx.n(80, 800)):
+        runs = []
+        for j in range(rng.randint(2, 5)):
+            edit = None
+            if j and rng.random() < 0.7:
+                x = rng.random()
+                edit = [rng.choice(["attr", "item"]), rng.choice([True, False, True, None])] if x < 0.85 else ["timeout", rng.choice([None, 30])]
+            runs.append([rng.choice([0, 1, 1, 3, 255]), rng.choice([None, None, None, True, False]), rng.choice([None, None, 30]), edit])
+        c = {"kind": "reuse", "runs": runs}
+        out.case(c, True)
+        out.hist["reuse:config-edited-in-place"] += 1
         ok, why = replay(c)
         if not ok:
             out.fail(c, why)
